@@ -58,7 +58,13 @@ def read_config(path, error_out=None):
     props = [props_obj.__getattribute__(x)
              for x in dir(props_obj)
              if not x.startswith("_")]
-    with open(path, "r") as f:
+    try:
+        # Undecodable bytes must not stop the calculator from starting.
+        f = open(path, "r", errors="replace")
+    except OSError:
+        printerr(f"WARNING: could not open config file '{path}'.")
+        return
+    with f:
         for line in f.readlines():
             # Only the first '=' separates name from value.
             items = line.split("=", 1)
